@@ -57,6 +57,10 @@ class Res:
     def echo(self, tok):
         return tok
 
+    def items(self, n):
+        # an item stream owned by the calling connection (left unfinished when the connection ends)
+        return (i for i in range(n))
+
     def sec(self, tok):
         raise E.SecurityError("denied " + str(tok))
 
@@ -99,7 +103,7 @@ class ConnWorld(World):
     STUB = ["sockets/selector (in-memory)", "threads (baton scheduler)", "time (virtual clock)", "raw protocol-speaking peers"]
     PROBES = ["release", "cut_header", "cut_annotations", "cut_payload", "rst", "malformed", "timeout_partial", "timeout_idle", "security",
               "hook_raises", "still_open_ok", "resources_closed", "resources_untracked", "session_instance", "multiplex", "thread",
-              "concurrent_endings", "handshake_failed_conn", "oneway_then_close"]
+              "concurrent_endings", "handshake_failed_conn", "oneway_then_close", "stream_open_at_end"]
     RULE = ("plan = (server type, COMMTIMEOUT, 2-4 connections each with handshake, 0-2 track calls (n resources, k untracked), optional "
             "session-instance call, an ending kind with byte offset, start delay; optional raising user hook / raising resource close); "
             "distinct = distinct interleaving digest; non-trivial = at least one connection ended abnormally while another was open")
@@ -107,7 +111,7 @@ class ConnWorld(World):
                    "resources are tracked from normal calls only (not from one-way threads)",
                    "the harness keeps strong references to resources (the daemon tracks them weakly)",
                    "with a server COMMTIMEOUT an idle connection is dropped by design, so 'still open' connections keep talking"]
-    QUICK_RUNS = 2500
+    QUICK_RUNS = 6000
     CHUNK = 100
     SHRINK_LISTS = ["conns"]
 
@@ -123,10 +127,12 @@ class ConnWorld(World):
             for t in tracks:
                 t["untrack"] = min(t["untrack"], t["n"])
             conns.append({"start": rng.choice([0, 0, 0.01, 0.1]), "tracks": tracks, "session": rng.random() < 0.4,
+                          "streams": rng.choice([0, 0, 1, 2]),
                           "end": end, "frac": round(rng.random(), 3), "hold": rng.choice([0, 0.05, 0.3]),
                           "bad_handshake": rng.random() < 0.1, "hook_raises": rng.random() < 0.15,
                           "ann": rng.random() < 0.5})
         return {"servertype": servertype, "commtimeout": commt, "conns": conns, "close_raises": rng.random() < 0.15,
+                "linger": rng.choice([0, 0, 30]),
                 "net": {"p_frag": rng.choice([0.0, 0.5]), "shuffle_select": rng.random() < 0.5,
                         "rst_discards_rx": rng.random() < 0.5},
                 "p_block": rng.choice([0.0, 0.3, 1.0])}
@@ -148,6 +154,7 @@ class ConnWorld(World):
         config.COMMTIMEOUT = plan["commtimeout"]
         config.POLLTIMEOUT = 2.0
         config.SERIALIZER = "marshal"
+        config.ITER_STREAM_LINGER = plan.get("linger", 30)
         daemon = CDaemon(host="127.0.0.1", port=0)
         daemon.register(Res(), "res")
         daemon.register(Sess, "sess")
@@ -195,6 +202,10 @@ class ConnWorld(World):
                     m = call(sk, st, "res", "track", (t["n"], t["untrack"]))
                     if m["type"] == N.MSG_RESULT and not m["flags"] & N.FLAG_EXC:
                         r["calls_ok"] += 1
+                for _ in range(spec.get("streams", 0)):
+                    m = call(sk, st, "res", "items", (5,))
+                    if m["type"] == N.MSG_RESULT and m["flags"] & N.FLAG_STREAM:
+                        ctx.probe("stream_open_at_end")
                 if spec["session"]:
                     m = call(sk, st, "sess", "hello", ())
                     if m["type"] == N.MSG_RESULT and not m["flags"] & N.FLAG_EXC:
@@ -385,6 +396,9 @@ class ConnWorld(World):
         if abnormal >= 2 or (abnormal and had_open):
             ctx.probe("concurrent_endings")
         ctx.nontrivial = abnormal > 0 and len(ended) >= 2
+        if not plan.get("linger") and daemon.streaming_responses:
+            ctx.violate("streams-kept-without-linger", "", "%d item streams of ended connections still in the table with ITER_STREAM_LINGER=0"
+                        % len(daemon.streaming_responses))
         # worker / selector slots
         ts = daemon.transportServer
         if plan["servertype"] == "thread":
